@@ -124,7 +124,7 @@ def _train_solve_row(
     nf = other.shape[1]
 
     if nui == 0:
-        return torch.zeros(nf)
+        return torch.zeros(nf, dtype=other.dtype, device=other.device)
 
     M = other[cols, :]
     MMT = M.T @ M
@@ -196,7 +196,7 @@ def _train_bias_row_cholesky(
     nf = other.shape[1]
 
     if nui == 0:
-        return torch.zeros(nf)
+        return torch.zeros(nf, dtype=other.dtype, device=other.device)
 
     M = other[items, :]
     regI = torch.eye(nf, device=other.device) * reg
